@@ -21,6 +21,18 @@ __CPROVER_ensures(!__CPROVER_return_value || (self->num_encoded_symbols <= self-
 __CPROVER_ensures(!__CPROVER_return_value || self->num_encoded_split_symbols <= self->num_encoded_symbols)
 __CPROVER_assigns(self->buffer->pos_, self->num_encoded_vertices_, self->num_faces, self->num_encoded_vertices, self->num_encoded_symbols, self->num_encoded_split_symbols);
 
+/* CreateAttributesDecoder prologue (C03): every attribute connectivity data set, and the position data, is claimed by AT MOST ONE attribute decoder
+ * (two decoders sharing one set would share its value counter, and the second attribute's point-to-value map would point past its values);
+ * an id outside the table is refused; nothing outside the table is touched. */
+bool Edgebreaker_ClaimAttributeData(struct ClaimCtx *self, int32_t att_decoder_id)
+__CPROVER_requires(__CPROVER_is_fresh(self, sizeof(struct ClaimCtx)) && DB_FRESH(self->buffer) && self->num_attribute_data <= 127 && att_decoder_id >= 0 && \
+                   __CPROVER_is_fresh(self->attribute_data_decoder_id, (self->num_attribute_data ? self->num_attribute_data : 1) * 4) && ghost_len < self->num_attribute_data)
+__CPROVER_ensures(DB_INV(self->buffer) && self->buffer->pos_ >= __CPROVER_old(self->buffer->pos_))
+__CPROVER_ensures(!(__CPROVER_return_value && __CPROVER_old(self->attribute_data_decoder_id[ghost_len]) >= 0) || self->attribute_data_decoder_id[ghost_len] == __CPROVER_old(self->attribute_data_decoder_id[ghost_len]))
+__CPROVER_ensures(!(__CPROVER_return_value && __CPROVER_old(self->pos_data_decoder_id_) >= 0) || self->pos_data_decoder_id_ == __CPROVER_old(self->pos_data_decoder_id_))
+__CPROVER_ensures(!__CPROVER_return_value || (self->traversal_method >= 0 && self->traversal_method < NUM_TRAVERSAL_METHODS))
+__CPROVER_assigns(self->buffer->pos_, self->pos_data_decoder_id_, self->traversal_method, __CPROVER_object_whole(self->attribute_data_decoder_id));
+
 /* kd-tree output iterator: a decoded point may only be stored into an attribute value slot that exists (C02/C03).  PointAttribute is a stub:
  * mapped_index returns ANY index (the map is stream controlled for legacy streams), SetAttributeValue requires the slot to exist. */
 uint32_t PA_mapped_index(const struct PAStub *a, uint32_t point_id) __CPROVER_ensures(1) __CPROVER_assigns();
@@ -34,5 +46,6 @@ __CPROVER_assigns();
 #include "guards_slice.c"
 void h_enf_KdOutIt_assign_vec3(void) { GHOSTS(); struct KdOutIt *it; const uint32_t *v; KdOutIt_assign_vec3(it, v); HARNESS_END(); }
 void h_enf_AttributesDecoder_Prologue(void) { GHOSTS(); struct GuardCtx *c; struct DecoderBuffer *b; AttributesDecoder_Prologue(c, b); HARNESS_END(); }
+void h_enf_Edgebreaker_ClaimAttributeData(void) { GHOSTS(); struct ClaimCtx *c; int32_t id; Edgebreaker_ClaimAttributeData(c, id); HARNESS_END(); }
 void h_enf_Edgebreaker_Header(void) { GHOSTS(); struct GuardCtx *c; Edgebreaker_Header(c); HARNESS_END(); }
 #endif
